@@ -31,6 +31,13 @@
 (* schema, instance) of SchemaTyping (no stale type, no stale attribute    *)
 (* list, nothing typed when the schema is None).                           *)
 (*                                                                         *)
+(* The walk matches an element to the FIRST particle of the current model   *)
+(* that has its name (and caches that).  Element Declarations Consistent   *)
+(* makes the TYPE found that way the right one (RefElems needs the EDC     *)
+(* conjunct of SchemaOK), but not the DECLARATION: DeclSound below is not  *)
+(* an invariant -- TLC refutes it as soon as two particles share a name    *)
+(* (MinKids = 3), which is the "default of the first particle" finding.    *)
+(*                                                                         *)
 (* Guard = "typed" is the sound design: apply_schema may only skip the walk *)
 (* when tree.schema is the proxy AND the tree still carries its types.     *)
 (* Guard = "coded" describes the pinned code (the test is only             *)
@@ -215,6 +222,9 @@ TripleOK == /\ ValidInstance(Sch(1), Inst) /\ ValidInstance(Sch(2), Inst)
             /\ Len(Flatten(Sch(2), Inst)) = Len(F)
             /\ \A n \in NodeIds : Flatten(Sch(2), Inst)[n].k = F[n].k /\ Flatten(Sch(2), Inst)[n].par = F[n].par
             /\ PairLaws(Sch(1), Inst) /\ PairLaws(Sch(2), Inst)
+(* NOT an invariant (see the header): the declaration attributed to a kid is its own particle *)
+DeclSound == pc = "idle" /\ ctx # 0 =>
+               \A n \in ElemIds : F[n].s = "kid" /\ ~HasXsiType(n) => edc[n] = F[n].i
 Inv == TypeOK /\ RefElems /\ RefAtts /\ WalkOK /\ CacheOK
 InitLaws == (pc = "idle" /\ ctx = 0 /\ tsch = 0 /\ aty = Unbuilt) => TripleOK
 (* the tree never keeps types of a schema the context no longer has *)
